@@ -32,7 +32,7 @@ CLAIMED = {
         technique="Coq induction on the ParseStatements model over scripts with arbitrary semicolon placement + simulation proof of delimiter-respect for the SELECT-core parser model + lexer theorems for ';' inside strings and comments + generated inventory of the Parser struct; joined-vs-individual harness; lexer and SELECT-core correspondences",
         text="C06: the driver model maps s1;...;sn (any extra/leading/trailing/doubled semicolons) to the per-statement results in order, threading nothing but remaining tokens and errors; for every byte string v the quoted spelling of v lexes to one STRING token (so a ';' inside never splits), and a separator of whitespace and complete comments (any bodies) is invisible to the token stream. Scripts of corpus/synthetic statements are compared statement by statement with the parts parsed alone.",
         design_ref="DESIGN.md §4 C06",
-        note="Delimiter-respect (followed by end of input or a semicolon the statement parser consumes exactly the statement and returns what it returns on it alone) is PROVED for the SELECT-core model (C06_fragment_*: forward simulation over every parse function of the fragment; the one EOF/semicolon asymmetry it exposed, the unclosed-parenthesis skip loop, is fixed in /repo); for statement kinds outside the fragment it remains a hypothesis of the driver theorem, tested by the script harness. Parser state: C06_parser_state_is_window_and_errors over the regenerated Parser struct."),
+        note="Also: after-error independence (48 vetted broken prefixes followed by ';' and valid statements) and scripts beyond 1 MiB (thorough: 4 / 16 MiB). Delimiter-respect (followed by end of input or a semicolon the statement parser consumes exactly the statement and returns what it returns on it alone) is PROVED for the SELECT-core model (C06_fragment_*: forward simulation over every parse function of the fragment; the one EOF/semicolon asymmetry it exposed, the unclosed-parenthesis skip loop, is fixed in /repo); for statement kinds outside the fragment it remains a hypothesis of the driver theorem, tested by the script harness. Parser state: C06_parser_state_is_window_and_errors over the regenerated Parser struct."),
     "C07": dict(
         technique="Coq: shift law of a depth-oblivious printer calculus instantiated by a depth/indent-use inventory regenerated from source + tail-insensitivity on the SELECT printer model + C10's no-hidden-state obligation; embedding harness",
         text="C07_printer: every clean function of internal/explain denotes a trace of a printer calculus that cannot inspect depth (except two allow-listed `depth == 0` tests in explainExplainQuery), hence prints at depth d the depth-0 text shifted by d; the inventory of every use of depth/indent, every write and every (indent, depth) pair is regenerated from /repo and checked in the kernel; over the SELECT printer model a tail-free union prints identically under every union tail and each embedding context contains the query's rendering as a shifted block; no package-level or tree writes (C10). The parser half is covered by the harness: 14 embeddings per SELECT/WITH corpus query and composed queries, each explained after random histories and in fresh processes.",
@@ -42,7 +42,7 @@ CLAIMED = {
         technique="Coq proof by induction over expression trees on a hand-written model of the Pratt parser + independent reference printer; three-way extraction correspondence",
         text="C08_precedence_and_associativity: for every well-formed surface expression tree of the property's language (unbounded depth and operator count) and every follow context, explain_model (parse_model (print e ++ rest)) = reference tree of e (precedence climb OR < AND < NOT < comparison < || < additive < multiplicative < unary minus, left associative, ClickHouse function names, AND/OR/|| chains flattened); plus totality of the model. Tied to the code by comparing code, extracted model and extracted spec on all shapes with up to 3/4 binary operators and random deeper expressions.",
         design_ref="DESIGN.md §4 C08",
-        note="Trusted: hand-written model of parseExpression & printers (fragment, explicit OutOfFragment elsewhere) validated by correspondence; NOT( and minus-literal folding follow the code/goldens where the property text is silent."),
+        note="Also: 157 embedding contexts including scripts in which the statement with the hole follows valid and failing statements. Trusted: hand-written model of parseExpression & printers (fragment, explicit OutOfFragment elsewhere) validated by correspondence; NOT( and minus-literal folding follow the code/goldens where the property text is silent."),
     "C09": dict(
         technique="Coq proofs on lexer + literal models against independent canonical printers (strings for all byte strings, integers for all n, float layout for all digit strings/exponents with strconv as a Section oracle); three-way extraction correspondence",
         text="C09: for every byte string v, lexing quote(v) gives STRING v and the printer renders canon_string v (two-level escaping); for all n: UInt64_n below 2^64, Int64_-n down to -2^63, -0 as UInt64_0, float branch beyond, hex/binary by value; FormatFloat's fixed/exponent layout equals an independent canon_float for every digit string and exponent (which digits are shortest is strconv's contract, an explicit premise); nesting in arrays/tuples and negation at any depth. Tied by comparing code, extracted model and spec on all 1- and 2-byte strings, integer and float boundaries and random cases.",
@@ -72,7 +72,7 @@ CLAIMED = {
         technique="Coq refinement proof: model of bufio.Reader over chunked readers simulates the pure byte stream; lifted to the lexer model by a relational (simulation) theorem; extraction correspondence with the real bufio",
         text="C14_bufio_refines_pure: for every well-behaved chunking (any chunk sizes, empty reads, last bytes with EOF) Peek and ReadRune of the bufio.Reader model return what the pure stream returns and preserve the abstraction — so every client restricted to these two operations, in particular the lexer model (parametric in the stream), produces the same tokens; statements, EXPLAIN and errors are functions of the token list. Tied by comparing the real bufio.Reader with the extracted model on generated operation sequences and Parse over many chunkings with Parse over a string reader.",
         design_ref="DESIGN.md §4 C14",
-        note="Trusted: transcription of bufio (validated every run); readers returning (0,nil) 100 times in a row are outside the property."),
+        note="Also: a stream ENDING IN THE SAME FAILURE gives the same statements and error under every delivery (error with or without data, 1 / 7 bytes per Read). Trusted: transcription of bufio (validated every run); readers returning (0,nil) 100 times in a row are outside the property."),
     "C15": dict(
         technique="Coq invariant proof on the bufio + error-tracking reader model (all scripts, all operation sequences) + totality of the lexer over every scripted (failing) reader by a measure argument (no fuel hypothesis left); fault-injection harness over readers of several dynamic types",
         text="C15: for every script of reads (errors anywhere, transient or persistent, with or without data) and every sequence of Peek/ReadRune operations, the error-tracking wrapper holds the first non-EOF error any Read returned (monotone); ParseStatements model returns ReadErr when it is set. Tied by the real bufio + wrapper vs extracted model on scripts with error chunks, and Parse over readers failing at every offset with several error kinds (errors.Is must hold).",
@@ -92,7 +92,7 @@ CLAIMED = {
         technique="Coq proof by mutual induction on type trees over a hand-written model of parseDataType/FormatDataType + independent canonical printer; three-way extraction correspondence",
         text="C18: for every well-formed type tree of the property's constructor set at any depth, both CAST(x AS T) and x::T show exactly the canonical text (names as written, ', ' separators, string arguments escaped at three levels inside the literal), over the model of parseDataType, parseCast, parseCastOperator, FormatDataType and the cast printer; tokens with any spacing/comments erase to the same token list. Tied by comparing code, extracted model and spec on random type trees covering every parent/child constructor pair, six separator styles and mutants.",
         design_ref="DESIGN.md §4 C18",
-        note="Trusted: hand-written model incl. an embedded isDataTypeName table (drift shows as disagreement); canonical escaping read off the goldens. Residual exclusion: Tuple(date LineString)."),
+        note="Also: an operand pass (the type line must not depend on what is cast: 15 operand kinds x both positions). Trusted: hand-written model incl. an embedded isDataTypeName table (drift shows as disagreement); canonical escaping read off the goldens. Residual exclusion: Tuple(date LineString)."),
 }
 
 NOT_YET = {
